@@ -168,7 +168,9 @@ ASSUMPTIONS = {
         "spec/ProtoValid.tla arbitrates: a disagreement is classified by the broken rule (mutants), the lookup rule ids of the "
         "unresolved reference (reference mutants), the experimental compiler's normalised first error (valid workspaces it rejects) "
         "or the differing descriptor member plus which side deviates from Descriptor(ws, f)",
-        "same case set and fragment as C01",
+        "same case set and fragment as C01, plus (C27 only, spec/MCFeat27.tla) edition-2023 files with features.json_format / "
+        "enum_type / field_presence set at file, enclosing message and element level in every combination, with and without the "
+        "construct the feature decides (colliding enum value names, first value 1, a default); purely differential, no protoc rule",
     ],
 }
 
@@ -272,6 +274,32 @@ def _run_one(pid, wd, binary, name, cfgtext, sim, depth, keep_valid, keep_mut, r
     return r, cnt, stats, mism
 
 
+def _run_feat(pid, wd, binary):
+    """C27 only: spec/MCFeat27.tla enumerates edition-2023 feature placements (feature x level x value x trigger);
+    the driver compiles each with both compilers (differential, no protoc rule involved)."""
+    p, fo, fe, outp, errp = _start_driver(binary, MODE[pid], wd, "feat")
+    cnt = {"seen": 0}
+
+    def sink(o):
+        cnt["seen"] += 1
+        try:
+            p.stdin.write((json.dumps(o, separators=(",", ":")) + "\n").encode())
+        except BrokenPipeError:
+            raise vf.MachineryError("driver died: " + open(errp).read()[-2000:])
+
+    try:
+        r = vf.tlc("MCFeat27", "MCFeat27.cfg", wd, workers=1, case_sink=sink, timeout=600)
+    except Exception:
+        p.kill()
+        _cancel_timers()
+        raise
+    if r.violated or cnt["seen"] == 0:
+        p.kill()
+        raise vf.MachineryError("MCFeat27 failed or exported nothing (%s)" % r.violated)
+    stats, mism = _finish_driver(p, fo, fe, outp, errp)
+    return r, cnt, stats, mism
+
+
 def _merge(total, stats):
     for k in ("cases", "evaluations", "compiles", "valid_cases", "invalid_cases", "crosscheck_skipped_syntax_error"):
         total[k] = total.get(k, 0) + stats.get(k, 0)
@@ -330,6 +358,14 @@ def run(pid, tier, replay=None):
             if cnt.get("coverage_zero"):
                 b["actions_never_enabled"] = cnt["coverage_zero"]
             bounds.append(b)
+        if pid == "C27":
+            r, cnt, stats, mism = _run_feat(pid, wd, binary)
+            absorb(mism)
+            _merge(total, stats)
+            states += r.distinct
+            trans += r.generated
+            bounds.append({"run": "feature-placement", "exhaustive": True, "tlc_states": r.distinct, "exported": cnt["seen"],
+                           "replayed": stats.get("cases", 0), "tlc_wall_s": round(r.wall, 1)})
         if tier == "thorough":
             name, cfgtext, sim, depth, kv, km = runs("quick", pid)[0]
             _r, _cnt, st2, mism2 = _run_one(pid, wd, binary, "selftest", cfgtext, sim, depth, 0.3, 0.05, rng,
